@@ -81,16 +81,19 @@ def economy_family(res, tier):
     update costs about that line, an unchanged view costs nothing"""
     from .. import program as P
     scs, metas = [], []
-    for compressor in (False, True):
+    for compressor, focus in ((False, False), (True, False), (False, True)):
         for alt in (False, True):
             for at in (0, 4, 8):
                 script = [P.W("started"), P.W("idle"), P.DO("sleep", us=40000)]
                 for k in range(4):
+                    if focus:
+                        # the terminal reports focus-out / focus-in between the updates (messages like any other for the renderer)
+                        script += [P.DO("send", msg=P.B("blur")), P.DO("send", msg=P.B("focus"))]
                     script += [P.DO("send", msg=P.U(10 + k)), P.DO("sleep", us=40000), P.W("idle")]
                 script += [P.DO("quit"), P.W("returned")]
-                scs.append(P.scenario(len(scs), script, opts={"fps": 120, "compressor": compressor, "alt": alt}, view={"pad": 8, "at": at}, writes=True,
+                scs.append(P.scenario(len(scs), script, opts={"fps": 120, "compressor": compressor, "alt": alt, "focus": focus}, view={"pad": 8, "at": at}, writes=True,
                                       parallel_ok=True, watchdog_ms=4000))
-                metas.append({"compressor": compressor, "alt": alt, "changed_line": at})
+                metas.append({"compressor": compressor, "alt": alt, "changed_line": at, "focus_events": focus})
     results, _ = P.run_scenarios("C19_econ", scs, timeout=600)
     bad = []
     for m, r in zip(metas, results):
